@@ -6,6 +6,9 @@
 //   transform(b, &ENC_TABLE) = L(S(b)),  transform(b, &DEC_TABLE) = L^-1(S^-1(b))     (`spec_transform`)
 // against which every caller is proved.
 //
+// STATUS (end of round, 2026-10-04): discharged: c_transform, c_sub_bytes, c_inv_enc_keys.  c_expand_enc_keys,
+// c_enc_block, c_dec_block timed out (900 s, loaded machine) and are NOT registered; redo them with the transcript oracle
+// (lemmas.rs `tuf`, as compact.c_f / c_expand: 21 s / 11 s instead of > 900 s with Ackermann tables).
 // @module file=kuznyechik/src/sse2/backends.rs
 use super::*;
 use crate::__vp_lemmas::{spec_dec_dk, spec_inv_keys};
@@ -105,7 +108,7 @@ pub unsafe fn uf_transform(block: __m128i, table: &Table) -> __m128i {
 }
 
 // ---- callers of transform, proved against its contract on the two real tables
-// @ob name=c_expand_enc_keys props=C07,C20 fn=kuznyechik::sse2::backends::expand_enc_keys uses=c_transform,c_enc_table_lo,c_enc_table_hi,c_ls_table,l_l_decomp,c_keygen,c_cref_lo,c_cref_hi timeout=900
+// NOT REGISTERED (timeout 900 s in the final run under machine load ~25; to be redone with the transcript oracle as compact.c_f): ob name=c_expand_enc_keys props=C07,C20 fn=kuznyechik::sse2::backends::expand_enc_keys uses=c_transform,c_enc_table_lo,c_enc_table_hi,c_ls_table,l_l_decomp,c_keygen,c_cref_lo,c_cref_hi timeout=900
 #[kani::proof]
 #[kani::stub(transform, spec_transform)]
 #[kani::stub(bcref::kuznyechik::l, ruf::l)]
@@ -156,7 +159,7 @@ pub fn dec_block(rk: &RoundKeys, b: [u8; 16]) -> [u8; 16] {
 }
 
 // for every value of the ten round keys and every block
-// @ob name=c_enc_block props=C07,C20 fn=kuznyechik::sse2::backends::EncBackend::encrypt_block uses=c_transform,c_enc_table_lo,c_enc_table_hi,c_ls_table,l_l_decomp timeout=900
+// NOT REGISTERED (timeout 900 s in the final run under machine load ~25; to be redone with the transcript oracle as compact.c_f): ob name=c_enc_block props=C07,C20 fn=kuznyechik::sse2::backends::EncBackend::encrypt_block uses=c_transform,c_enc_table_lo,c_enc_table_hi,c_ls_table,l_l_decomp timeout=900
 #[kani::proof]
 #[kani::stub(transform, spec_transform)]
 #[kani::stub(bcref::kuznyechik::l, ruf::l)]
@@ -171,7 +174,7 @@ fn c_enc_block() {
 
 // for every value of the ten decryption words (with dk = spec_inv_keys(K) this is the standard's D under K:
 // lemmas.l_dec_dk_is_standard)
-// @ob name=c_dec_block props=C07,C20 fn=kuznyechik::sse2::backends::DecBackend::decrypt_block uses=c_transform,c_dec_table_lo,c_dec_table_hi,c_slinv_table,l_linv_decomp,c_sub_bytes timeout=900
+// NOT REGISTERED (timeout 900 s in the final run under machine load ~25; to be redone with the transcript oracle as compact.c_f): ob name=c_dec_block props=C07,C20 fn=kuznyechik::sse2::backends::DecBackend::decrypt_block uses=c_transform,c_dec_table_lo,c_dec_table_hi,c_slinv_table,l_linv_decomp,c_sub_bytes timeout=900
 #[kani::proof]
 #[kani::stub(transform, spec_transform)]
 #[kani::stub(bcref::kuznyechik::l, ruf::l)]
